@@ -67,6 +67,17 @@ type registry struct {
 	conns     []*VConn
 	nextPort  int
 	dialHook  func(addr string) error
+	aliases   map[string]string // name:port -> numeric address (name resolution)
+}
+
+// Alias makes dialling name reach the listener at addr; the connection's RemoteAddr is addr, as
+// after a real name resolution.
+func Alias(name, addr string) {
+	r := reg()
+	if r.aliases == nil {
+		r.aliases = map[string]string{}
+	}
+	r.aliases[name] = addr
 }
 
 func reg() *registry {
@@ -137,6 +148,15 @@ func EnableFaults(prefix string) {
 	}
 }
 
+// FaultsInjected counts the resets injected in this execution.
+func FaultsInjected() int {
+	if e := sched.E; e != nil {
+		n, _ := e.Data["faultsInjected"].(int)
+		return n
+	}
+	return 0
+}
+
 func (c *VConn) maybeFault(op string) {
 	e := sched.E
 	if e == nil {
@@ -147,6 +167,8 @@ func (c *VConn) maybeFault(op string) {
 		return
 	}
 	if sched.Choose(sched.ClsEnv, 2, "reset-before-"+op) == 1 {
+		n, _ := e.Data["faultsInjected"].(int)
+		e.Data["faultsInjected"] = n + 1
 		c.in.reset, c.out.reset = true, true
 		c.in.buf, c.out.buf = nil, nil
 	}
@@ -411,12 +433,16 @@ func Dial(network, address string) (net.Conn, error) {
 			return nil, &net.OpError{Op: "dial", Net: network, Addr: Addr(address), Err: err}
 		}
 	}
+	if real, ok := r.aliases[address]; ok {
+		address = real
+	}
 	l, ok := r.listeners[address]
 	if !ok || l.closed {
 		return nil, &net.OpError{Op: "dial", Net: network, Addr: Addr(address), Err: syscall.ECONNREFUSED}
 	}
 	r.nextPort++
 	a, b := newPair(r, Addr(fmt.Sprintf("127.0.0.1:%d", r.nextPort)), l.addr)
+	a.Label = "out:" + address
 	l.backlog = append(l.backlog, b)
 	return a, nil
 }
